@@ -201,6 +201,9 @@ func runC06(c *Ctx) {
 		R.Ob("ErrDataTooLarge/code 552", "-", ok1 && code == 552, fmt.Sprintf("ErrDataTooLarge.Code = %d", code))
 	}
 
+	R.Rule("R-verdict-flow", "E4 value flow", "the DATA/BDAT verdict is the backend's result and nothing else: the handlers add no size verdict of their own (the limit is enforced by the reader and by the chunk accounting)", 4)
+	ruleVerdictSources(c)
+
 	ruleSizeParam(c)
 
 	R.Rule("R-bdat-limit", "E3+E6", "a chunk reaches the pipe only when the running total stays within the limit (strictly greater is refused with 552, chunk consumed, transaction reset); the total counts accepted chunks only", 5)
